@@ -310,6 +310,7 @@ def canonicalise(tree: ast.Module, level=None, relpath: str = None) -> ast.Modul
         stores[n.name] = stores.get(n.name, 0) + 1
     _blocks(fn, stores, loads, level)
   if level >= 3:
+    tree = _Polarity().visit(tree)      # tests exposed by the inlining above (t = a not in b; x if t else y)
     tree = _SplitTuples().visit(tree)   # tuple assignments exposed by the inlining above
     ast.fix_missing_locations(tree)
   return tree
